@@ -113,8 +113,16 @@ type PrismHeader struct {
 func (m *PrismHeader) LayerType() gopacket.LayerType { return LayerTypePrismHeader }
 
 func (m *PrismHeader) DecodeFromBytes(data []byte, df gopacket.DecodeFeedback) error {
+	if len(data) < 24 {
+		df.SetTruncated()
+		return ErrPrismExpectedMoreData
+	}
 	m.Code = binary.LittleEndian.Uint16(data[0:4])
 	m.Length = binary.LittleEndian.Uint16(data[4:8])
+	if m.Length < 24 || int(m.Length) > len(data) {
+		df.SetTruncated()
+		return ErrPrismExpectedMoreData
+	}
 	m.DeviceName = string(data[8:24])
 	m.BaseLayer = BaseLayer{Contents: data[:m.Length], Payload: data[m.Length:len(data)]}
 
